@@ -343,8 +343,14 @@ def find_irrelevant_type(etype: tp.Type, types: List[tp.Type],
         # type arguments in order to pass type arguments that are irrelevant
         # with any parameterized type created by this type constructor.
         type_list = [t for t in types if t != etype]
-        return get_irrelevant_parameterized_type(
+        new_t = get_irrelevant_parameterized_type(
                 t, type_list, type_args_map, factory)
+        if new_t is not None and (new_t.is_subtype(etype) or
+                                  etype.is_subtype(new_t)):
+            # The chosen instantiation is related to etype after all (through
+            # the class hierarchy or through type-argument containment).
+            return None
+        return new_t
     return t
 
 
